@@ -122,6 +122,198 @@ theorem handleCode_not_ok_of_dead (c : Sq) (pk : Pkce) (st : Store) (f : TokenFo
         rw [hg] at h1
         simp only at h1
         subst h1
-        simp [hg, errAt_ne_ok]
+        simp [errAt_ne_ok]
+
+theorem s2sLoop_keeps_dead (c : Sq) (ns : List String) (k : Key) (b : BurnKind) (hk : k.ns = .burn b) :
+    ∀ st, stGet c.incl st c.now k = none → stGet c.incl (s2sLoop c st ns).2 c.now k = none := by
+  induction ns with
+  | nil => intro st h; simpa [s2sLoop] using h
+  | cons n rest ih =>
+    intro st h
+    unfold s2sLoop
+    by_cases hn : n = ""
+    · simp [hn, h]
+    · simp only [hn, if_false]
+      unfold pifSeq
+      cases hg : stGet c.incl st c.now (s2sKey n) with
+      | some v => simpa using h
+      | none =>
+        simp only
+        apply ih
+        apply stGet_none_put_ne _ _ _ _ _ _ _ h
+        intro he; rw [he] at hk; simp [s2sKey] at hk
+
+theorem handleS2S_keeps_dead (c : Sq) (st : Store) (f : TokenForm) (ns : List String) (k : Key) (b : BurnKind) (hk : k.ns = .burn b)
+    (h : stGet c.incl st c.now k = none) : stGet c.incl (handleS2S c st f ns).2 c.now k = none := by
+  have h1 := s2sLoop_keeps_dead c ns k b hk st h
+  unfold handleS2S
+  cases hl : s2sLoop c st ns with
+  | mk a st1 =>
+    rw [hl] at h1
+    cases a with
+    | ok => simp only; split <;> simpa using h1
+    | err _ _ => simpa using h1
+    | panic _ => simpa using h1
+
+theorem handleToken_keeps_dead (c : Sq) (pk : Pkce) (st : Store) (f : TokenForm) (k : Key) (b : BurnKind) (hk : k.ns = .burn b)
+    (h : stGet c.incl st c.now k = none) : stGet c.incl (handleToken c pk st f).2 c.now k = none := by
+  unfold handleToken
+  simp only
+  split
+  · exact handleCode_keeps_dead c pk st f k h
+  · split
+    · cases f.assertion with
+      | none => simpa using h
+      | some ns =>
+        simp only
+        split
+        · simpa using h
+        · exact handleS2S_keeps_dead c st f ns k b hk h
+    · split <;> simpa using h
+
+theorem burnAll_keeps_dead (incl : Bool) (now : Nat) (ns : List String) (k : Key) :
+    ∀ st, stGet incl st now k = none → stGet incl (burnAll st ns) now k = none := by
+  induction ns with
+  | nil => intro st h; simpa [burnAll] using h
+  | cons n rest ih =>
+    intro st h
+    simp only [burnAll, List.foldl_cons]
+    exact ih _ (stGet_none_erase incl st now k (vpKey n) h)
+
+theorem burnAll_kills (incl : Bool) (now : Nat) (ns : List String) (n : String) (hn : n ∈ ns) :
+    ∀ st, stGet incl (burnAll st ns) now (vpKey n) = none := by
+  induction ns with
+  | nil => cases hn
+  | cons m rest ih =>
+    intro st
+    simp only [burnAll, List.foldl_cons]
+    cases List.mem_cons.mp hn with
+    | inl he => subst he; exact burnAll_keeps_dead incl now rest _ _ (stGet_erase_self incl st now _)
+    | inr hr => exact ih hr _
+
+theorem nonces_le_one (a : NAcc) (h : ¬ nonceErrs a > 0) : a.nonces.length ≤ 1 := by
+  unfold nonceErrs at h
+  by_cases hl : a.nonces.length > 1
+  · simp [hl] at h
+  · omega
+
+theorem validateNonce_keeps_dead (c : Sq) (st : Store) (ps : List Pres) (state : String) (k : Key)
+    (h : stGet c.incl st c.now k = none) : stGet c.incl (validateNonce c st ps state).2 c.now k = none := by
+  unfold validateNonce
+  simp only
+  by_cases he : nonceErrs (collect ps) > 0
+  · simp only [he, if_true]
+    exact burnAll_keeps_dead c.incl c.now _ k st h
+  · simp only [he, if_false]
+    cases hn : (collect ps).nonces with
+    | nil => simpa using h
+    | cons n rest =>
+      simp only
+      have h2 := gadSeq_keeps_dead c st k (vpKey n) h
+      cases hg : gadSeq c st (vpKey n) with
+      | mk o st1 =>
+        rw [hg] at h2
+        cases o with
+        | none => simpa using h2
+        | some s => simp only; split <;> simpa using h2
+
+/-- whatever validatePresentationNonce answers, every nonce any presentation named is unreadable afterwards -/
+theorem validateNonce_kills (c : Sq) (st : Store) (ps : List Pres) (state : String) (n : String) (hn : n ∈ (collect ps).nonces) :
+    stGet c.incl (validateNonce c st ps state).2 c.now (vpKey n) = none := by
+  unfold validateNonce
+  simp only
+  by_cases he : nonceErrs (collect ps) > 0
+  · simp only [he, if_true]
+    exact burnAll_kills c.incl c.now _ n hn st
+  · simp only [he, if_false]
+    have hle := nonces_le_one _ he
+    cases hc : (collect ps).nonces with
+    | nil => rw [hc] at hn; cases hn
+    | cons m rest =>
+      rw [hc] at hn hle
+      have hrest : rest = [] := by
+        cases rest with
+        | nil => rfl
+        | cons x xs => simp at hle
+      subst hrest
+      have hm : n = m := by simpa using hn
+      subst hm
+      simp only
+      have h2 := gadSeq_dead c st (vpKey n)
+      cases hg : gadSeq c st (vpKey n) with
+      | mk o st1 =>
+        rw [hg] at h2
+        cases o with
+        | none => simpa using h2
+        | some s => simp only; split <;> simpa using h2
+
+/-- a response naming a nonce that cannot be read is refused -/
+theorem validateNonce_not_ok_of_dead (c : Sq) (st : Store) (ps : List Pres) (state : String) (n : String) (hn : n ∈ (collect ps).nonces)
+    (hd : stGet c.incl st c.now (vpKey n) = none) : (validateNonce c st ps state).1 ≠ .ok := by
+  unfold validateNonce
+  simp only
+  by_cases he : nonceErrs (collect ps) > 0
+  · simp only [he, if_true]
+    exact errAt_ne_ok _ _
+  · simp only [he, if_false]
+    have hle := nonces_le_one _ he
+    cases hc : (collect ps).nonces with
+    | nil => rw [hc] at hn; cases hn
+    | cons m rest =>
+      rw [hc] at hn hle
+      have hrest : rest = [] := by
+        cases rest with
+        | nil => rfl
+        | cons x xs => simp at hle
+      subst hrest
+      have hm : n = m := by simpa using hn
+      subst hm
+      simp only
+      have h1 := gadSeq_none_of_dead c st (vpKey n) hd
+      cases hg : gadSeq c st (vpKey n) with
+      | mk o st1 =>
+        rw [hg] at h1
+        simp only at h1
+        subst h1
+        simp [errAt_ne_ok]
+
+theorem handleResponse_keeps_dead (c : Sq) (st : Store) (r : VpResponse) (k : Key)
+    (h : stGet c.incl st c.now k = none) : stGet c.incl (handleResponse c st r).2 c.now k = none := by
+  unfold handleResponse
+  simp only
+  cases r.state with
+  | none => simpa using h
+  | some state =>
+    cases r.vpToken with
+    | none => simpa using h
+    | some ps =>
+      cases ps with
+      | nil => simpa using h
+      | cons p ps =>
+        simp only
+        split
+        · simpa using h
+        · split
+          · simpa using h
+          · exact validateNonce_keeps_dead c st (p :: ps) state k h
+
+theorem handleForm_keeps_dead (c : Sq) (pk : Pkce) (st : Store) (f : Form) (k : Key) (b : BurnKind) (hk : k.ns = .burn b)
+    (h : stGet c.incl st c.now k = none) : stGet c.incl (handleForm c pk st f).2 c.now k = none := by
+  cases f with
+  | token t => exact handleToken_keeps_dead c pk st t k b hk h
+  | response r => exact handleResponse_keeps_dead c st r k h
+
+/-- a burn-on-use key that cannot be read stays unreadable through any sequence of requests, however much time passes -/
+theorem runForms_keeps_dead (incl : Bool) (ttl : Kind → Nat) (pk : Pkce) (k : Key) (b : BurnKind) (hk : k.ns = .burn b)
+    (fs : List (Nat × Form)) : ∀ (now : Nat) (st : Store), stGet incl st now k = none →
+      stGet incl (runForms incl ttl pk now st fs).2.1 (runForms incl ttl pk now st fs).2.2 k = none := by
+  induction fs with
+  | nil => intro now st h; simpa [runForms] using h
+  | cons x rest ih =>
+    intro now st h
+    obtain ⟨dt, f⟩ := x
+    simp only [runForms]
+    apply ih
+    exact handleForm_keeps_dead ⟨incl, now + dt, ttl⟩ pk st f k b hk (stGet_none_later incl st now dt k h)
 
 end Nuts.C05
